@@ -338,15 +338,33 @@ func multiSplit(value string, seps ...string) []string {
 }
 
 func recursiveCheck(value []string, funcs []func(string) bool) bool {
-	for i := 0; i < len(value); i++ {
-		tempVal := strings.Join(value[:i+1], " ")
-		for _, j := range funcs {
-			if j(tempVal) && (len(value[i+1:]) == 0 || recursiveCheck(value[i+1:], funcs)) {
-				return true
+	// splits[i] reports whether value[i:] divides into consecutive groups
+	// that are each, joined by a space, accepted by one of funcs. Filling it
+	// in from the end looks at every group once; re-trying the same tails
+	// for every way of splitting the head took time exponential in
+	// len(value).
+	n := len(value)
+	if n == 0 {
+		return false
+	}
+	splits := make([]bool, n+1)
+	splits[n] = true
+	for i := n - 1; i >= 0; i-- {
+	groups:
+		for j := i; j < n; j++ {
+			if !splits[j+1] {
+				continue
+			}
+			group := strings.Join(value[i:j+1], " ")
+			for _, f := range funcs {
+				if f(group) {
+					splits[i] = true
+					break groups
+				}
 			}
 		}
 	}
-	return false
+	return splits[0]
 }
 
 func in(value []string, arr []string) bool {
